@@ -207,7 +207,11 @@ func (eng *Engine) intrinsic(callee *ssa.Function) *intrinsicDef {
 		return d
 	}
 	if tn, ta, ok := immRecv(callee); ok {
-		return immMethod(tn, callee.Name(), ta)
+		name := callee.Name()
+		if i := strings.Index(name, "["); i > 0 {
+			name = name[:i]
+		}
+		return immMethod(tn, name, ta)
 	}
 	if o := callee.Origin(); o != nil && o.Pkg != nil && o.Pkg.Pkg.Path() == immPkg {
 		return immFunc(o.Name(), callee.TypeArgs())
